@@ -385,7 +385,7 @@ def _run_one(name, path, timeout):
     return Result(v, name, dt, out)
 
 
-def solve_text(text, timeout=20, order=('z3', 'cvc5'), workdir=None, keep=None, get_values=None):
+def solve_text(text, timeout=20, order=('z3', 'cvc5'), workdir=None, keep=None, get_values=None, alt_text=None):
     """Run the portfolio concurrently; the first definite answer wins.  'unknown' if none."""
     d = workdir or tempfile.mkdtemp(prefix='pyvc_')
     path = os.path.join(d, keep or 'q.smt2')
@@ -401,6 +401,18 @@ def solve_text(text, timeout=20, order=('z3', 'cvc5'), workdir=None, keep=None, 
         for name in order:
             p = subprocess.Popen(SOLVERS[name](path, timeout), stdout=subprocess.PIPE, stderr=subprocess.STDOUT, text=True)
             procs.append((name, p))
+        if alt_text and not get_values:
+            # sound variants (goal skolemised, quantified assumptions instantiated / dropped): only an
+            # `unsat` answer of a variant is used
+            for k, (label, vt) in enumerate(alt_text):
+                if not label:
+                    continue
+                path2 = os.path.join(d, 'q_v%d.smt2' % k)
+                with open(path2, 'w') as f:
+                    f.write(vt)
+                for name in order:
+                    p = subprocess.Popen(SOLVERS[name](path2, timeout), stdout=subprocess.PIPE, stderr=subprocess.STDOUT, text=True)
+                    procs.append((name + label, p))
         pending = list(procs)
         winner = None
         while pending and winner is None:
@@ -412,7 +424,7 @@ def solve_text(text, timeout=20, order=('z3', 'cvc5'), workdir=None, keep=None, 
                 out = p.stdout.read() or ''
                 first = out.strip().split('\n', 1)[0].strip() if out.strip() else ''
                 outs.append('%s: %s' % (name, out.strip()[:300]))
-                if first in ('sat', 'unsat'):
+                if first == 'unsat' or (first == 'sat' and '+' not in name):
                     winner = Result(first, name, time.time() - t0, out)
                     break
             if winner is None and pending:
